@@ -127,13 +127,19 @@ func strSet(a []any) []any {
 }
 
 func schemaSkel(s oobj) M {
-	m := M{"notation": s.str("notation"), "root": "", "rtype": "", "uses": []any{}, "uenums": []any{}}
+	m := M{"notation": s.str("notation"), "root": "", "rtype": "", "uses": []any{}, "uenums": []any{}, "props": []any{}}
 	if s.str("notation") == "jsight" {
 		c := s.obj("content")
 		m["root"] = c.str("tokenType")
 		m["rtype"] = c.str("type")
 		m["uses"] = strSet(s.arr("usedUserTypes"))
 		m["uenums"] = strSet(s.arr("usedUserEnums"))
+		props := []any{}
+		for _, ch := range c.arr("children") {
+			co, _ := ch.(oobj)
+			props = append(props, M{"key": co.str("key"), "tt": co.str("tokenType"), "ty": co.str("type")})
+		}
+		m["props"] = props
 	}
 	return m
 }
